@@ -84,7 +84,7 @@ theorem verifyAttach_spec {base : Image A} (bs : List Blk) : ∀ (nd : Node A) (
     · rw [if_pos hst]
       exact ⟨h, Ext.refl nd, Frame.refl nd, fun hf => absurd hf (by simp)⟩
 
-theorem reorg_spec {base : Image A} {nd : Node A} (hA : A.Lawful) (cfg : Cfg) {n : Chain}
+theorem reorg_spec {base : Image A} {nd : Node A} (hA : A.Lawful) (cfg : Cfg) (hp : cfg.prune = none) {n : Chain}
     (h : Good base nd) (hn : n ∈ keys nd.index) :
     Good base (reorg cfg nd n).1 ∧ Ext nd (reorg cfg nd n).1 := by
   have hf1 : forkOf nd.tip n <:+ nd.tip := forkOf_suffix_left _ _
@@ -139,7 +139,7 @@ theorem reorg_spec {base : Image A} {nd : Node A} (hA : A.Lawful) (cfg : Cfg) {n
                 rw [htip] at ha
                 refine ⟨e2.1 _ ?_, e2.2.1 _ (e1.2.1 _ (has a ha))⟩
                 rw [f1.2.2]; exact s1 rfl a ha
-              obtain ⟨g3, e3⟩ := connectAll_spec cfg (blocksAbove n (forkOf nd.tip n).length) nd2 g2 hall
+              obtain ⟨g3, e3⟩ := connectAll_spec cfg hp (blocksAbove n (forkOf nd.tip n).length) nd2 g2 hall
               rw [htip] at g3 e3
               cases hca : connectAll cfg (chainsOn (forkOf nd.tip n) (blocksAbove n (forkOf nd.tip n).length)) nd2 with
               | mk nd3 ok3 =>
@@ -154,7 +154,8 @@ theorem good_setStatus {base : Image A} {nd : Node A} (h : Good base nd) {a : Ch
   obtain ⟨c, e, m⟩ := core_setStatus h.core s ha
   exact ⟨good_of_frame h c ⟨rfl, rfl, rfl⟩, e, m⟩
 
-theorem deliver_spec {base : Image A} {nd : Node A} (hA : A.Lawful) (cfg : Cfg) (h : Good base nd)
+theorem deliver_spec {base : Image A} {nd : Node A} (hA : A.Lawful) (cfg : Cfg) (hp : cfg.prune = none)
+    (h : Good base nd)
     (b : Blk) (p : Chain) :
     Good base (deliver cfg nd b p).1 ∧ Ext nd (deliver cfg nd b p).1 ∧
     (((deliver cfg nd b p).2 = .okMain ∨ (deliver cfg nd b p).2 = .okSide) →
@@ -178,7 +179,7 @@ theorem deliver_spec {base : Image A} {nd : Node A} (hA : A.Lawful) (cfg : Cfg) 
   rw [if_neg h4]
   -- store, index row
   obtain ⟨c1, e1⟩ := core_step (nd' := emit nd (.storeBlock (b :: p))) h.core (c := .storeBlock (b :: p))
-    trivial rfl rfl rfl rfl h.core.tip_eq
+    trivial rfl rfl rfl rfl rfl h.core.tip_eq
   have g1 : Good base (emit nd (.storeBlock (b :: p))) := ⟨c1, h.utxo_eq, h.marker_some⟩
   have hst1 : (b :: p) ∈ (emit nd (.storeBlock (b :: p))).img.stored := by simp [emit, apply]
   obtain ⟨g2, e2, m2⟩ := good_setStatus g1 (a := b :: p) {} (Or.inr h3)
@@ -201,7 +202,7 @@ theorem deliver_spec {base : Image A} {nd : Node A} (hA : A.Lawful) (cfg : Cfg) 
       have htip5 : (flushDirty (setStatus nd3 (b :: p) { valid := true })).tip = p := by
         rw [flushDirty_tip]; exact h5.symm
       generalize flushDirty (setStatus nd3 (b :: p) { valid := true }) = nd5 at g5 e35 htip5 ⊢
-      have hspec := connectBlock_spec (nd := { nd5 with utxo := A.conn b nd5.utxo }) cfg (n := b :: p)
+      have hspec := connectBlock_spec (nd := { nd5 with utxo := A.conn b nd5.utxo }) cfg hp (n := b :: p)
         (core_with_utxo g5.core _) g5.marker_some (e35.1 _ hst3) (e35.2.1 _ hidx3)
         (by show A.conn b nd5.utxo = utxoOf A (b :: p); rw [g5.utxo_eq, htip5]; rfl)
       have hok := hspec.2.2 (by simp) (by show p = nd5.tip; exact htip5.symm)
@@ -222,13 +223,14 @@ theorem deliver_spec {base : Image A} {nd : Node A} (hA : A.Lawful) (cfg : Cfg) 
     by_cases h7 : (b :: p).length ≤ nd3.tip.length
     · rw [if_pos h7]; exact ⟨g3, e03, fun _ => hrow3⟩
     · rw [if_neg h7]
-      obtain ⟨g4, e4⟩ := reorg_spec hA cfg g3 hidx3
+      obtain ⟨g4, e4⟩ := reorg_spec hA cfg hp g3 hidx3
       exact ⟨g4, Ext.trans e03 e4, fun _ => e4.2.2.2.1 _ hrow3⟩
 
-theorem step_spec {base : Image A} {nd : Node A} (hA : A.Lawful) (cfg : Cfg) (h : Good base nd) (o : Op) :
+theorem step_spec {base : Image A} {nd : Node A} (hA : A.Lawful) (cfg : Cfg) (hp : cfg.prune = none)
+    (h : Good base nd) (o : Op) :
     Good base (step cfg nd o).1 ∧ Ext nd (step cfg nd o).1 := by
   cases o with
-  | deliver b p => exact ⟨(deliver_spec hA cfg h b p).1, (deliver_spec hA cfg h b p).2.1⟩
+  | deliver b p => exact ⟨(deliver_spec hA cfg hp h b p).1, (deliver_spec hA cfg hp h b p).2.1⟩
   | flushReq =>
     obtain ⟨c, e⟩ := core_flushRequired h.core h.utxo_eq
     exact ⟨⟨c, h.utxo_eq, e.2.2.1 h.marker_some⟩, e⟩
@@ -240,13 +242,13 @@ theorem step_spec {base : Image A} {nd : Node A} (hA : A.Lawful) (cfg : Cfg) (h 
     show (flushIfNeeded cfg nd nd.tip).utxo = utxoOf A (flushIfNeeded cfg nd nd.tip).tip
     rw [flushIfNeeded_utxo, flushIfNeeded_tip]; exact h.utxo_eq
 
-theorem runOps_spec {base : Image A} (hA : A.Lawful) (cfg : Cfg) (ops : List Op) : ∀ (nd : Node A),
+theorem runOps_spec {base : Image A} (hA : A.Lawful) (cfg : Cfg) (hp : cfg.prune = none) (ops : List Op) : ∀ (nd : Node A),
     Good base nd → Good base (runOps cfg nd ops) ∧ Ext nd (runOps cfg nd ops) := by
   induction ops with
   | nil => intro nd h; exact ⟨h, Ext.refl nd⟩
   | cons o rest ih =>
     intro nd h
-    obtain ⟨g1, e1⟩ := step_spec hA cfg h o
+    obtain ⟨g1, e1⟩ := step_spec hA cfg hp h o
     obtain ⟨g2, e2⟩ := ih _ g1
     exact ⟨g2, Ext.trans e1 e2⟩
 
